@@ -89,10 +89,10 @@ def setMapEntry (m : Option WfIO.KeyMap) (k v : String) : Option WfIO.KeyMap :=
 def step (s : St) (ws : List String) : St × List String :=
   let w := s.w
   match ws with
-  | ["cfg", a, b, c, d, e, f, h] =>
-    match parseBool a, parseBool b, parseBool c, parseBool d, parseBool e, parseBool f, parseBool h with
-    | some a, some b, some c, some d, some e, some f, some h => ({ s with cfg := ⟨a, b, c, d, e, f, h, 64⟩ }, [])
-    | _, _, _, _, _, _, _ => (s, ["bad-op"])
+  | ["cfg", a, b, c, d, e, f] =>
+    match parseBool a, parseBool b, parseBool c, parseBool d, parseBool e, parseBool f with
+    | some a, some b, some c, some d, some e, some f => ({ s with cfg := ⟨a, b, c, d, e, f, 64⟩ }, [])
+    | _, _, _, _, _, _ => (s, ["bad-op"])
   | ["node", n, k, l] =>
     match n.toNat?, parseNodeKind k with
     | some n, some k =>
